@@ -216,7 +216,17 @@ func (m *Machine) intrinsic(fn *ssa.Function, args []Value, k func(Value)) bool 
 		case key == coPath+".Yield":
 			f := m.cur.top()
 			f.pc++ // resume after the call
-			m.yieldNoK(args[0])
+			v := args[0]
+			// Yield[V] is instantiated from its argument: a concrete V inside an Iter[any]
+			// generator is converted to the iterator's element type on delivery
+			if h := m.cur.handle; h != nil {
+				if _, isI := h.elem.Underlying().(*types.Interface); isI {
+					if _, ok := v.(IfaceV); !ok {
+						v = IfaceV{t: fn.Signature.Params().At(0).Type(), v: v}
+					}
+				}
+			}
+			m.yieldNoK(v)
 			return true
 		case key == coPath+".YieldFrom":
 			f := m.cur.top()
